@@ -117,3 +117,32 @@ prop("C12", "exploration",
 prop("C08", "exploration",
      "weakest fit, stated as such: the verdict is a pure function of the selector; the simulator only hosts the input sampling and shows that load does not change the verdict. A scripted requestor sends 1-5 generated selector specs (every explore clause kind, nested recursion, unions, interpret-as wrappers, limits 1-20, 99, 100, 101, 1000000 and none) to a default-configured real responder while an honest exchange runs; an independent walk over the spec's data-model form decides whether it contains a recursion that is unbounded or deeper than 100; the wire status must be RequestRejected exactly then; distinct = distinct trace hash",
      _b(1500, 60, 100000, 900), technique="seeded input generation hosted by the deterministic simulator; independent reference predicate")
+
+# What the worlds gained after the first round (mostly from seeded changes that were missed at first; DESIGN.md §14)
+_EXT = {
+ "C01": "adversary also plays on the hash function of a block's CID (the link's digest as an identity-hash block, the genuine bytes under another hash function); DAGs with empty raw leaves and codec-alias leaves (same bytes under raw and dag-cbor)",
+ "C02": "field names that are textual prefixes of siblings, two-digit list indices, empty raw leaves, codec-alias leaves; the recorded skip-count class is the two peers' link sequences diverging within the skipped prefix",
+ "C03": "empty raw leaves and codec-alias leaves",
+ "C04": "buggify yields in the task workers and after the queue returns memory; refuse-heavy runs (several failure statuses per message); caller context cancelled during request set-up; back-pressure family (small responder memory allowance, optionally fail-fast sends)",
+ "C05": "same additions as C04; a response reported failed on the network must not later complete successfully",
+ "C23": "same additions as C04",
+ "C06": "runs with a responder that lacks 30% of the blocks; empty and codec-alias leaves",
+ "C07": "a second request after the first with a per-request budget of its own",
+ "C08": "specs wrapped in up to 150 further clauses of one kind or in rotation",
+ "C09": "a second victim request; intruder messages naming r1, r2 and an unknown ID in any combination; the response data handed to each block hook must be one the genuine responder sent",
+ "C10": "the other peer may come first and may be refused by a request hook; a single-worker responder kept busy by an earlier request; a coherent stale-task variant; nothing may run for a retired request of the other peer while the first peer holds the ID; a paused response stays paused",
+ "C11": "all messages written to one stream with ToNet and read back one by one with FromNet from a reader with drawn fragment sizes; extension codec values start with the boundaries",
+ "C12": "request-ID byte strings of other lengths in well-framed messages; well-formed CBOR with hostile content (new request without root or selector, non-selectors); a complete frame that does not decode is malformed whatever error the decoder names; the stream of a malformed message must be reset",
+ "C15": "a ledger between the real queue and the real allocator (a release never exceeds what is reserved and not yet returned; nothing is built without a grant); a call kind whose build function adds nothing; backlog runs (callers outrun the sender)",
+ "C16": "same component world as C15",
+ "C17": "the order rule compares the block CIDs the receiver computes; backlog runs; more block traffic in big-block runs",
+ "C18": "25% of runs are long bursts against slow subscribers (command queue backs up beyond 32 entries)",
+ "C19": "responses may also be ended with FinishWithError and may be paused; the tracker's tables are read (lengths, by reflection) whenever a request stops being tracked or is paused",
+ "C20": "one sibling may be cancelled or paused for good by its caller; a named deduplication scope with a store of its own (persistence option) that most requests of a run may use, optionally with do-not-send-cids for what that store holds; every commit is checked against the block its CID names; a loss is classified by whether a sibling that had been sent the block was still in progress at the responder",
+ "C21": "a guarded yield between a worker's pop and StartTask; responder-side pause at a block and operator resume",
+ "C22": "40% of runs build the node whose code panics without a PanicCallback option; ending without an error is accepted only for a requestor-side read, and then every loaded block must be stored",
+ "C24": "the request may live in a named scope that a second, unrelated request joins at a drawn step; empty and codec-alias leaves",
+ "C25": "the responder's operator may cancel the stalled peer's response once or twice; any handler the actor loop is stuck in counts as loop-blocked",
+}
+for _p, _t in _EXT.items():
+    META[_p]["rule"] += " | added later: " + _t
